@@ -728,6 +728,21 @@ func runC12(c *Ctx) {
 				c.Violate("C12/presentation-dependent", "two presentations of the same program gave different outcomes: "+res0+" vs "+res,
 					map[string]interface{}{"verb": "AUTHSEQ", "case": sx, "go": res, "base_case": sx0, "base_go": res0})
 			}
+			if r.Chance(1, 3) {
+				// the same two presentations one after the other on ONE authorizer (Reset in
+				// between): the second must end as it does on an authorizer of its own
+				reused := va
+				reused.Ops = append(append(append([]AuthOp{}, a.Ops...), AuthOp{K: "authorize"}, AuthOp{K: "reset"}), variant.Ops...)
+				resR, sxR := emitAuth(c, "var-reused", reused)
+				if resR != "environment-timeout" {
+					c.Count("presentations-on-one-authorizer")
+					pr := strings.Split(resR, " ")
+					if len(pr) == len(parts)+1 && strings.Join(pr[1:], " ") != res {
+						c.Violate("C12/presentation-dependent:reused", "a presentation given to a reused authorizer (after another presentation and Reset) ends differently from the same presentation on a new authorizer: "+trunc(strings.Join(pr[1:], " "), 80)+" vs "+trunc(res, 80),
+							map[string]interface{}{"verb": "AUTHSEQ", "case": sxR, "go": resR, "base_case": sx, "base_go": res})
+					}
+				}
+			}
 		}
 		if i < 2 {
 			c.Sample(map[string]string{"base": sx0, "go": res0})
@@ -943,7 +958,6 @@ func runC18(c *Ctx) {
 	}
 }
 
-
 // undeclaredSymbols: tokens (signed by the root key, e.g. issued by a builder that was used
 // twice) whose authority block refers to a symbol index it does not declare. Whatever the
 // library makes of such a token, a holder must not be able to give the missing symbol a
@@ -1015,7 +1029,7 @@ func undeclaredSymbols(c *Ctx) {
 		}
 		// a symbol list that is longer than what it adds to the table (a default symbol, a string
 		// listed twice): the undeclared index lies beyond the table but within the list's length
-		vs = append(vs, variant{"padded-symbol-list", append(append([]string{}, declared...), "admin", "twice", "twice"), 
+		vs = append(vs, variant{"padded-symbol-list", append(append([]string{}, declared...), "admin", "twice", "twice"),
 			[]*pb.FactV2{pbFact(sym("role"), pbStr(dangling+1))}, nil,
 			[]AuthOp{allow(Rule{Head: Pred{Name: "query"}, Body: []Pred{{Name: "role", Terms: []Term{str("superuser")}}}})}})
 		// a variable number without a declared name, next to a declared variable whose name is
@@ -1124,7 +1138,6 @@ func undeclaredInMemory(c *Ctx) {
 
 func u64p(v uint64) *uint64 { return &v }
 
-
 // snapshotMissingField: a well-formed snapshot from which one mandatory field has been
 // removed (a policy's kind, a fact's predicate, a predicate's name, a rule's / query's head):
 // syntactically valid protobuf that only the required-field check stands against.
@@ -1134,7 +1147,17 @@ func snapshotMissingField(data []byte, r *Rng) []byte {
 		return []byte{0x10, 0x03, 0x32, 0x00}
 	}
 	three := uint32(3)
-	switch r.Intn(7) {
+	switch r.Intn(10) {
+	case 7:
+		m.Symbols = nil // every index from 1024 up now points nowhere
+	case 8:
+		if len(m.Symbols) > 0 {
+			m.Symbols = m.Symbols[:r.Intn(len(m.Symbols))]
+		}
+	case 9:
+		if len(m.Symbols) > 0 {
+			m.Symbols = m.Symbols[len(m.Symbols)-1:]
+		}
 	case 0:
 		m.Policies = append(m.Policies, &pb.Policy{}) // no kind, no queries
 	case 1:
@@ -1158,7 +1181,6 @@ func snapshotMissingField(data []byte, r *Rng) []byte {
 	m.Version = &three
 	return mustMarshal(&m)
 }
-
 
 // liveLoad: LoadPolicies on an authorizer that has already evaluated something. The content
 // uses default symbols and integers only, so that re-basing the symbol table (which
@@ -1203,6 +1225,17 @@ func liveLoad(c *Ctx, r *Rng) {
 		sub = append(sub, AuthOp{K: "addpolicy", Policy: Policy{Allow: r.Chance(2, 3), Queries: []Rule{{Head: Pred{Name: "query"}, Body: []Pred{{Name: Pick(r, names), Terms: []Term{V("p")}}}}}}})
 		ops = append(ops, AuthOp{K: "load", Sub: sub})
 		q2 := Rule{Head: Pred{Name: "got", Terms: []Term{V("v")}}, Body: []Pred{{Name: Pick(r, names), Terms: []Term{V("v")}}}}
+		if r.Chance(1, 3) {
+			// loading does not make an evaluated authorizer unevaluated: saving right after the
+			// load must still be refused (the world holds the token's facts)
+			acs := AuthCase{MaxFacts: 1000, MaxIter: 100, Ctor: "for", Tokens: [][]Block{{{Facts: []Pred{fact()}}}}, Ops: append(append([]AuthOp{}, ops...), AuthOp{K: "saveload", Tok: 0})}
+			resS, sxS := emitAuth(c, "liveload-save", acs)
+			c.Count("live-load-then-save")
+			if !strings.HasSuffix(resS, "refused") && resS != "environment-timeout" && !strings.HasPrefix(resS, "panic") {
+				c.Violate("C18/save-after-eval", "SerializePolicies succeeded on an authorizer that was evaluated and then loaded: "+trunc(resS, 120),
+					map[string]interface{}{"verb": "AUTHSEQ", "case": sxS, "go": resS})
+			}
+		}
 		ops = append(ops, AuthOp{K: "query", Rule: q2}, AuthOp{K: "authorize"}, AuthOp{K: "query", Rule: q})
 		ac := AuthCase{MaxFacts: 1000, MaxIter: 100, Ctor: "for", Tokens: [][]Block{{{Facts: []Pred{fact()}}}}, Ops: ops}
 		_, sx := emitAuth(c, "liveload", ac)
